@@ -335,6 +335,67 @@ func generatedHostile() []seedFile {
 		}, ""))
 	}
 
+	// /Prev cycles (length 1-3; classic tables, cross-reference streams, mixed
+	// chains, hybrid /XRefStm) behind 0, 7 and 1000 bytes of junk before the
+	// header: all offsets in a file are relative to the header, the reader's
+	// loop detection has to work in the same coordinates
+	base := map[int]string{
+		1: "<< /Type /Catalog /Pages 2 0 R >>",
+		2: "<< /Type /Pages /Count 1 /Kids [ 3 0 R ] >>",
+		3: pageObj, 4: contentObj, 5: fontObj,
+	}
+	upd := func(i int) map[int]string {
+		return map[int]string{6 + i: fmt.Sprintf("<< /Title (revision %d) >>", i)}
+	}
+	shapes := []struct {
+		name  string
+		secs  []xsec
+		start int
+	}{
+		{"table-self", []xsec{{objs: base, prev: 0, xrefstm: -1}}, 0},
+		{"table-2", []xsec{{objs: base, prev: 1, xrefstm: -1}, {objs: upd(1), prev: 0, xrefstm: -1}}, 1},
+		{"table-3", []xsec{{objs: base, prev: 2, xrefstm: -1}, {objs: upd(1), prev: 0, xrefstm: -1}, {objs: upd(2), prev: 1, xrefstm: -1}}, 2},
+		{"stream-self", []xsec{{stream: true, objs: base, prev: 0, xrefstm: -1}}, 0},
+		{"stream-2", []xsec{{stream: true, objs: base, prev: 1, xrefstm: -1}, {stream: true, objs: upd(1), prev: 0, xrefstm: -1}}, 1},
+		{"mixed-3", []xsec{{objs: base, prev: 2, xrefstm: -1}, {stream: true, objs: upd(1), prev: 0, xrefstm: -1}, {objs: upd(2), prev: 1, xrefstm: -1}}, 2},
+		{"hybrid-2", []xsec{{stream: true, objs: upd(3), prev: -1, xrefstm: -1}, {objs: base, prev: 2, xrefstm: 0}, {objs: upd(1), prev: 1, xrefstm: 0}}, 2},
+	}
+	for _, sh := range shapes {
+		for _, p := range []int{0, 7, 1000} {
+			add(fmt.Sprintf("hostile-prevcycle-%s-p%d.pdf", sh.name, p), buildChain(junkPreamble(p, uint64(p)+17), sh.secs, sh.start))
+		}
+	}
+
+	// streams as members of an object stream (not allowed; the /Length of
+	// such a member may lead back into the object stream)
+	type member struct {
+		num  int
+		text string
+	}
+	objStm := func(ms []member) string {
+		var head, body string
+		for _, m := range ms {
+			head += fmt.Sprintf("%d %d ", m.num, len(body))
+			body += m.text + " "
+		}
+		return streamObj(fmt.Sprintf("/Type /ObjStm /N %d /First %d", len(ms), len(head)), []byte(head+body))
+	}
+	ms := func(length string) string { return "<< /Length " + length + " >> stream\nabc\nendstream" }
+	add("hostile-objstm-member-stream-a.pdf", xrefStreamFile(map[int]string{
+		1: "<< /Type /Catalog /Pages 2 0 R /A 10 0 R /B 11 0 R /C 13 0 R /D 14 0 R /E 15 0 R >>",
+		2: "<< /Type /Pages /Count 1 /Kids [ 3 0 R ] >>",
+		3: pageObj, 4: contentObj, 5: fontObj,
+		20: objStm([]member{{10, ms("10 0 R")}, {11, ms("12 0 R")}, {12, "3"}, {13, ms("16 0 R")}, {14, ms("15 0 R")}, {15, ms("14 0 R")}}),
+		21: objStm([]member{{16, "3"}, {17, ms("17 0 R")}}),
+	}, map[int][2]int{10: {20, 0}, 11: {20, 1}, 12: {20, 2}, 13: {20, 3}, 14: {20, 4}, 15: {20, 5}, 16: {21, 0}, 17: {21, 1}}))
+	add("hostile-objstm-member-stream-b.pdf", xrefStreamFile(map[int]string{
+		1: "<< /Type /Catalog /Pages 2 0 R /A 10 0 R /B 11 0 R /C 12 0 R >>",
+		2: "<< /Type /Pages /Count 1 /Kids [ 3 0 R ] >>",
+		3: "<< /Type /Page /Parent 2 0 R /MediaBox [0 0 200 200] /Contents 10 0 R /Resources << /Font << /F1 5 0 R >> >> >>",
+		4: contentObj, 5: fontObj, 6: "3",
+		20: objStm([]member{{10, ms("3")}, {11, ms("6 0 R")}, {12, ms("20 0 R")}, {13, "<< /Length 13 0 R >> stream\nno end"}}),
+	}, map[int][2]int{10: {20, 0}, 11: {20, 1}, 12: {20, 2}, 13: {20, 3}}))
+
 	// images: a valid 256x256 JPEG as image XObject, and the same data under
 	// filter chains in which DCTDecode is not the top filter and the filter
 	// above it rejects the decoded samples
@@ -358,6 +419,99 @@ func generatedHostile() []seedFile {
 		for _, upper := range []string{"ASCIIHexDecode", "LZWDecode", "ASCII85Decode", "RunLengthDecode"} {
 			add("hostile-dct-chain-"+upper+".pdf", imgDoc("[ /DCTDecode /"+upper+" ]"))
 		}
+	}
+	return out
+}
+
+// junkPreamble returns n bytes which may precede the header: noise with
+// look-alikes of the header and of the end-of-file markers, but never "%PDF-".
+func junkPreamble(n int, seed uint64) []byte {
+	rnd := vt.NewRand(seed)
+	words := []string{"%PDF 1.4\n", "%PDF", "%!PS-Adobe-3.0\n", "xref\n0 1\n", "startxref\n12\n%%EOF\n", "trailer << /Prev 9 >>\n", "1 0 obj\n", "\r\n", "\x00\x00", "%PDF_1.7 "}
+	var b []byte
+	for len(b) < n {
+		if rnd.Intn(3) == 0 {
+			b = append(b, words[rnd.Intn(len(words))]...)
+		} else {
+			b = append(b, rnd.Bytes(1+rnd.Intn(12))...)
+		}
+	}
+	b = b[:n]
+	for {
+		i := bytes.Index(b, []byte("%PDF-"))
+		if i < 0 {
+			break
+		}
+		b[i+4] = '_'
+	}
+	// the header itself follows directly: the junk must not end in a prefix of it
+	if n > 0 && b[n-1] == '%' {
+		b[n-1] = '\n'
+	}
+	return b
+}
+
+// xsec is one cross-reference section of a hand-built revision chain.
+type xsec struct {
+	stream  bool           // cross-reference stream instead of table
+	objs    map[int]string // the objects written in front of (and listed by) this section
+	prev    int            // index of the section /Prev names, -1: none
+	xrefstm int            // tables: index of the stream section /XRefStm names, -1: none
+}
+
+// buildChain writes preamble, header, and the sections in order; startxref
+// names section start.  All offsets are relative to the header and rendered
+// with fixed width, so that two passes suffice.
+func buildChain(preamble []byte, secs []xsec, start int) []byte {
+	pos := make([]int, len(secs))
+	var out []byte
+	for pass := 0; pass < 2; pass++ {
+		var b bytes.Buffer
+		b.Write(preamble)
+		h := b.Len()
+		b.WriteString("%PDF-1.7\n%\xe2\xe3\xcf\xd3\n")
+		for i, sec := range secs {
+			var nums []int
+			for n := range sec.objs {
+				nums = append(nums, n)
+			}
+			sort.Ints(nums)
+			offs := map[int]int{}
+			for _, n := range nums {
+				offs[n] = b.Len() - h
+				fmt.Fprintf(&b, "%d 0 obj\n%s\nendobj\n", n, sec.objs[n])
+			}
+			pos[i] = b.Len() - h
+			extra := ""
+			if sec.prev >= 0 {
+				extra += fmt.Sprintf(" /Prev %010d", pos[sec.prev])
+			}
+			if sec.stream {
+				sn := 50 + i
+				nums = append(nums, sn)
+				offs[sn] = pos[i]
+				var tab []byte
+				index := ""
+				for _, n := range nums {
+					o := offs[n]
+					tab = append(tab, 1, byte(o>>24), byte(o>>16), byte(o>>8), byte(o), 0)
+					index += fmt.Sprintf("%d 1 ", n)
+				}
+				fmt.Fprintf(&b, "%d 0 obj\n%s\nendobj\n", sn,
+					streamObj(fmt.Sprintf("/Type /XRef /Size 60 /W [1 4 1] /Index [ %s] /Root 1 0 R%s", index, extra), tab))
+				continue
+			}
+			if sec.xrefstm >= 0 {
+				extra += fmt.Sprintf(" /XRefStm %010d", pos[sec.xrefstm])
+			}
+			b.WriteString("xref\n0 1\n0000000000 65535 f \n")
+			for _, n := range nums {
+				fmt.Fprintf(&b, "%d 1\n%010d 00000 n \n", n, offs[n])
+			}
+			fmt.Fprintf(&b, "trailer\n<< /Size 60 /Root 1 0 R%s >>\n", extra)
+		}
+		fmt.Fprintf(&b, "startxref\n%d\n%%%%EOF\n", pos[start])
+		out = b.Bytes()
 	}
 	return out
 }
